@@ -236,7 +236,7 @@ impl<'a> Evaluator<'a> {
             AggState::Value(state) => AggState::Value(match self.node() {
                 RowCount => state.add(DataValue::Int32(chunk.cardinality() as _)),
                 Count(a) => state.add(DataValue::Int32(self.next(*a).eval(chunk)?.count() as _)),
-                Sum(a) => state.add(self.next(*a).eval(chunk)?.sum()),
+                Sum(a) => sum_skip_null(state, self.next(*a).eval(chunk)?.sum()),
                 Min(a) => state.min(self.next(*a).eval(chunk)?.min_()),
                 Max(a) => state.max(self.next(*a).eval(chunk)?.max_()),
                 First(a) => state.or(self.next(*a).eval(chunk)?.first()),
@@ -246,7 +246,8 @@ impl<'a> Evaluator<'a> {
             AggState::DistinctValue(mut values) => match self.node() {
                 CountDistinct(a) => {
                     let array = self.next(*a).eval(chunk)?;
-                    for value in array.iter() {
+                    // COUNT(DISTINCT) does not count NULL
+                    for value in array.iter().filter(|v| !v.is_null()) {
                         values.insert(value);
                     }
                     AggState::DistinctValue(values)
@@ -266,7 +267,7 @@ impl<'a> Evaluator<'a> {
             AggState::Value(state) => AggState::Value(match self.node() {
                 RowCount | RowNumber => state.add(DataValue::Int32(1)),
                 Count(_) => state.add(DataValue::Int32(!value.is_null() as _)),
-                Sum(_) => state.add(value),
+                Sum(_) => sum_skip_null(state, value),
                 Min(_) => state.min(value),
                 Max(_) => state.max(value),
                 First(_) => state.or(value),
@@ -274,7 +275,9 @@ impl<'a> Evaluator<'a> {
                 t => panic!("not aggregation: {t}"),
             }),
             AggState::DistinctValue(mut values) => {
-                values.insert(value);
+                if !value.is_null() {
+                    values.insert(value);
+                }
                 AggState::DistinctValue(values)
             }
         }
@@ -287,6 +290,17 @@ impl<'a> Evaluator<'a> {
         (self.node().as_list().iter())
             .map(|id| matches!(self.next(*id).node(), Expr::Desc(_)))
             .collect()
+    }
+}
+
+/// SUM ignores NULL inputs: the result is NULL only if there is no non-null input at all.
+fn sum_skip_null(state: DataValue, value: DataValue) -> DataValue {
+    if value.is_null() {
+        state
+    } else if state.is_null() {
+        value
+    } else {
+        state.add(value)
     }
 }
 
